@@ -3,3 +3,5 @@
 package watcher
 
 func verifGate(p *Changes, dir string, n int) {}
+
+func verifPreLock(p *Changes) {}
